@@ -100,7 +100,7 @@ class Spec:
             acts, it = [], iter(tapes)
             try:
                 for a in self.acts:
-                    acts.append(a + ":" + next(it) if a.split(":")[0] in ("d", "w", "g") else a)
+                    acts.append(a + ":" + next(it) if a.split(":")[0] in TAPED else a)
             except StopIteration:
                 raise RuntimeError(f"oracle answered {out!r} for {self.oracle()!r}")
             if next(it, None) is not None:
@@ -113,8 +113,11 @@ class Spec:
         raise AssertionError(k)
 
 
+TAPED = ("d", "d1", "w", "g", "g1")
+
+
 def _needs_tape(acts):
-    return any(a.split(":")[0] in ("d", "w", "g") for a in acts)
+    return any(a.split(":")[0] in TAPED for a in acts)
 
 
 _BIN = [None]
@@ -257,7 +260,7 @@ def random_script(r, nacts, params, stateful_eq=True, max_draws=6):
         elif k < 36:
             i = any_d()
             n = ndraws()
-            acts.append(f"d:{i}:{n}")
+            acts.append(f"{r.choice(['d', 'd', 'd1'])}:{i}:{n}")
             if n:
                 st.ds[i][1] = st.fresh()
         elif k < 48:
@@ -298,9 +301,9 @@ def random_script(r, nacts, params, stateful_eq=True, max_draws=6):
             kk = r.below(VAR_SLOTS)
             if r.chance(1, 4):
                 a, b = params()
-                acts.append(f"vp:{kk}:{a}:{b}")
+                acts.append(f"{r.choice(['vp', 'vp1'])}:{kk}:{a}:{b}")
             else:
-                acts.append(f"{r.choice(['v', 'vm'])}:{kk}:{any_d()}")
+                acts.append(f"{r.choice(['v', 'vm', 'v1', 'vm1'])}:{kk}:{any_d()}")
             st.vs[kk] = True
         elif k < 85:
             if not st.vs:
@@ -323,7 +326,7 @@ def random_script(r, nacts, params, stateful_eq=True, max_draws=6):
                 continue
             acts.append(f"w:{any_v()}:{ndraws()}")
         else:
-            acts.append(f"g:{r.range(1, 3)}")
+            acts.append(f"{r.choice(['g', 'g1'])}:{r.range(1, 3)}")
     return acts
 
 
@@ -371,6 +374,16 @@ def systematic_scripts(iv1, iv2):
                 out.append(pre + [f"{how}:1:0", "w:1:2", "w:0:2", "w:1:1", "g:1", "w:0:1"])
     for k0 in (0, 1, 3):
         out.append([f"n:0:{a}:{b}", "v:0:0", f"w:0:{k0}", "va:0:0", "w:0:2"])
+    # two generators: a variate keeps referring to the generator it was built on; copying / assigning / moving a variate
+    # takes over the source's generator as well as its distribution; a distribution object can be used with either
+    for how in ("vc", "va", "vx", "vy"):
+        for k0 in (0, 1, 2):
+            pre = [f"n:0:{a}:{b}", "v:0:0", "v1:1:0", f"w:0:{k0}", "w:1:1", "g:1", "g1:1"]
+            if how in ("vc", "vx"):
+                out.append(pre + [f"{how}:2:1", "w:2:2", "g1:1", "g:1", "w:0:1"] + ([] if how == "vx" else ["w:1:2", "g1:1"]))
+            else:
+                out.append(pre + [f"{how}:0:1", "w:0:2", "g1:1", "g:1"] + ([] if how == "vy" else ["w:1:2", "g1:1", "g:1"]))
+    out.append([f"n:0:{a}:{b}", "d:0:2", "d1:0:2", "d:0:1", "g:1", "g1:1", f"vp1:0:{c}:{d}", "vm1:1:0", "w:0:2", "w:1:2", "g1:1", "g:1", "e:0:0"])
     # three objects drawn from round-robin: one generator, three independent states
     out.append([f"n:0:{a}:{b}", f"n:1:{a}:{b}", f"n2:2:{c}:{d}", "v:0:1"] + ["d:0:1", "w:0:1", "d:2:1", "g:1", "d:1:1"] * 3 + ["e:0:1", "e:0:2", "q:2"])
     return out
@@ -769,9 +782,9 @@ def _script_draws(t):
     n = 0
     for a in t[1:]:
         f = a.split(":")
-        if f[0] in ("d", "w") and len(f) >= 3 and f[2].isdigit():
+        if f[0] in ("d", "d1", "w") and len(f) >= 3 and f[2].isdigit():
             n += int(f[2])
-        elif f[0] == "g" and len(f) >= 2 and f[1].isdigit():
+        elif f[0] in ("g", "g1") and len(f) >= 2 and f[1].isdigit():
             n += int(f[1])
         elif f[0] in ("t", "e", "q", "f"):
             n += 1
@@ -838,7 +851,7 @@ def refine(op):
             out += [" ".join(t[:k] + t[k + 1:]) for k in range(first, len(t) - 1)]
             for k in range(first, len(t)):          # fewer draws in one step
                 f = t[k].split(":")
-                if f[0] in ("d", "w") and f[2].isdigit() and int(f[2]) > 1:
+                if f[0] in ("d", "d1", "w") and f[2].isdigit() and int(f[2]) > 1:
                     out += [" ".join(t[:k] + [":".join(f[:2] + [str(c)])] + t[k + 1:]) for c in _cuts(int(f[2]))[1:]]
         return out or None
     if kind in ("I", "R", "X"):
